@@ -75,7 +75,8 @@ func Relocate(err error, filename string, line, col int) error {
 	case *scanner.Error:
 		relocatePos(&e.Pos, filename, line, col)
 	default:
-		panic("todo: " + reflect.TypeOf(err).String())
+		// an error without position information (e.g. cl.ErrNoDocFound):
+		// there is nothing to relocate.
 	}
 	return err
 }
